@@ -43,7 +43,8 @@ def _h(*pairs):
     return d
 
 COMPILER_HARNESS = _h(("internal/ast/compiler/zz_verif_c05.go", "harness/compiler/zz_verif_c05.go"),
-                      ("internal/ast/compiler/zz_verif_c07.go", "harness/compiler/zz_verif_c07.go"))
+                      ("internal/ast/compiler/zz_verif_c07.go", "harness/compiler/zz_verif_c07.go"),
+                      ("internal/ast/compiler/zz_verif_c15.go", "harness/compiler/zz_verif_c15.go"))
 
 PROPERTIES["C05"] = {
     "level_text": "Bounded symbolic execution + SMT of the real passes (via compiler.Passes.Process, i.e. after the deep copy, as users run them) on "
@@ -143,4 +144,21 @@ PROPERTIES["C04"] = {
                  "internal/ast/compiler", needs_leaf=True, panics="violation", judge="panic"),
              Run("orderedmap", ["./internal/orderedmap"], {"internal/orderedmap/zz_verif_c19.go": "harness/orderedmap/zz_verif_c19.go"},
                  ["VerifC19Step", "VerifC19History"], "internal/orderedmap", panics="violation", judge="panic")],
+}
+
+
+C15_ENTRIES = ["VerifC15RenameObject", "VerifC15Omit", "VerifC15OmitFields", "VerifC15AddFields", "VerifC15AddObject", "VerifC15DuplicateObject",
+               "VerifC15RetypeObject", "VerifC15RetypeField", "VerifC15FieldsSetRequired", "VerifC15FieldsSetNotRequired", "VerifC15FieldsSetDefault",
+               "VerifC15ReplaceReference", "VerifC15ConstantToEnum", "VerifC15TrimEnumValues", "VerifC15HintObject", "VerifC15SchemaSetIdentifier",
+               "VerifC15SchemaSetEntryPoint", "VerifC15PrefixObjectNames", "VerifC15AppendComment"]
+
+PROPERTIES["C15"] = {
+    "level_text": "Bounded symbolic execution + SMT. Each of the 19 user-configurable transformations is run (through compiler.Passes.Process) on symbolic schemas with symbolic "
+                  "parameters (targets that differ in case, are absent, or live in another or an unloaded package arise by themselves) and compared, modulo debug trails, with an "
+                  "in-harness reference model written from the reference documentation; the comparison covers the whole result, so it is also the frame condition "
+                  "(every other object, field, comment, default and ordering untouched; absent target => unchanged).",
+    "level_note": "Bounds: packages p,q (+unloaded ext as a target); 3 objects; main object T(1) over {scalar, ref, array, struct<=2, union of 2} (+constants/enums/constant refs where the "
+                  "transformation is about them); names over {Foo,foo,Bar}, fields over {a,A,b}; Nullable/Required symbolic. Reference semantics: DESIGN.md appendix A.",
+    "bounds": {"schemas": "2 packages, 3 objects, main object T(1)", "parameters": "symbolic over the same case-sensitive alphabets plus absent names and an unloaded package"},
+    "runs": [Run("compiler", ["./internal/ast/compiler"], COMPILER_HARNESS, C15_ENTRIES, "internal/ast/compiler", needs_leaf=True)],
 }
